@@ -132,10 +132,15 @@ def build_envelope(i, n, mid=MSG_ID):
     return m
 
 
+# the library's own algorithm constants (HMAC_MD5 is spelled in upper case there)
+LIB_ALGS = {str(n).lower(): n for n in dns.tsig.mac_sizes if n != dns.tsig.GSS_TSIG}
+
+
 def lib_key(case, secret=None, name=None, alg=None):
+    alg = alg or case["alg"]
     return dns.tsig.Key(dns.name.from_text(name or case["keyname"]),
                         case_secret(case) if secret is None else secret,
-                        dns.name.from_text(alg or case["alg"]))
+                        LIB_ALGS.get(alg) or dns.name.from_text(alg))
 
 
 def case_secret(case):
@@ -1059,6 +1064,10 @@ def run(ctx):
     ]
     quick = ctx.quick
     tasks = []
+    ctx.extra["library_hmac_algorithms"] = sorted(LIB_ALGS)
+    if set(LIB_ALGS) != set(ALGS):
+        ctx.cap("the library's algorithm table %r differs from the 9 reference algorithms; only the latter are explored"
+                % sorted(set(LIB_ALGS) ^ set(ALGS)))
 
     # 1. sign / validate / fudge window: full product in both tiers
     sign_cases = []
